@@ -107,7 +107,7 @@ impl Prop for ErrorsPinpoint {
     }
     fn strategy(&self, _tier: Tier) -> BoxedStrategy<Case> {
         let fa = prop_oneof![3 => fasta_invalid_start(), 1 => gen::byte_soup(Format::Fasta)];
-        let fq = prop_oneof![8 => gen::fastq_doc_defective(10), 1 => gen::mutated(Format::Fastq, gen::fastq_valid_doc(6)), 1 => gen::byte_soup(Format::Fastq)];
+        let fq = prop_oneof![32 => gen::fastq_doc_defective(10), 4 => gen::mutated(Format::Fastq, gen::fastq_valid_doc(6)), 4 => gen::byte_soup(Format::Fastq), 2 => gen::fastq_long_id_defective(), 1 => gen::fastq_garbage_tail_doc()];
         let per = |f: Format, input: BoxedStrategy<B>| {
             (gen::input_and_cap(f, input), gen::script(), any::<bool>()).prop_map(move |((input, cap), script, via_sets)| Case { format: f, input, cap, script, via_sets })
         };
@@ -379,7 +379,7 @@ impl Prop for ErrorsInHistories {
     }
 }
 
-pub const RULE: &str = "cases = malformed inputs: FASTQ documents with a defect of each kind (wrong start byte, wrong separator byte, length mismatch, truncation at any byte, dropped line) at a generated record index 0..10, mutated valid documents, soups; FASTA invalid starts behind 0..40 blank LF/CRLF lines; x capacity absolute or aimed at the offending group's offset (+-3) x chunk script x {next, record sets}. Oracle: the first error's variant, line, found byte and lengths equal the reference model's; the id, when given, is the offending record's id; to_string() contains the decimal line number, both lengths, the id and some rendering of the found byte. Inputs without an in-domain format error are skipped (counted). Sub-check errors-in-histories: the same inputs x capacity x any policy (refusing ones included) x histories of next / records() / read_record_set / read_record_set_exact(n) / set_policy / seek (no source faults): every format error returned by any call has the model's variant, line, found byte and lengths (a well-formed input yields none). Non-trivial = every evaluated case (all have an error) / histories in which a format error was reported. Distinct = hash(input, capacity, chunks, mode).";
+pub const RULE: &str = "cases = malformed inputs: FASTQ documents with a defect of each kind (wrong start byte, wrong separator byte, length mismatch, truncation at any byte, dropped line) at a generated record index 0..10, mutated valid documents, soups, defective records whose id is 1000..70 000 bytes long, valid records followed by a garbage tail of 66..300 kB with 0..3 line breaks; FASTA invalid starts behind 0..40 blank LF/CRLF lines; x capacity absolute or aimed at the offending group's offset (+-3) x chunk script x {next, record sets}. Oracle: the first error's variant, line, found byte and lengths equal the reference model's; the id, when given, is the offending record's id; to_string() contains the decimal line number, both lengths, the id and some rendering of the found byte. Inputs without an in-domain format error are skipped (counted). Sub-check errors-in-histories: the same inputs x capacity x any policy (refusing ones included) x histories of next / records() / read_record_set / read_record_set_exact(n) / set_policy / seek (no source faults): every format error returned by any call has the model's variant, line, found byte and lengths (a well-formed input yields none). Non-trivial = every evaluated case (all have an error) / histories in which a format error was reported. Distinct = hash(input, capacity, chunks, mode).";
 
 pub fn run(tier: Tier) -> i32 {
     let mut run = Run::new("C17", tier, "exploration");
